@@ -290,19 +290,27 @@ def _tree_text(case, files, defaults):
         '; '.join(odd) or '(nothing: the pristine tree)') + ('' if prof == '0' else '; scan options: ' + PROFILE.get(prof, prof))
 
 
-def _rpm_sqlite_class(case, f, files):
-    """class predicate of the known finding (the scanned rpmdb.sqlite is opened read-write): real-directory route, and
-    every difference is on an rpmdb.sqlite of the tree or on the -wal/-shm/-journal file SQLite keeps beside it
-    (checkpointed database, deleted or rewritten -wal/-shm, an empty -wal left behind)"""
+INPLACE_KEY = 'C06/rpm-sqlite-under-another-name-opened-in-place'
+
+
+def _rpm_inplace_class(case, f, files):
+    """class predicate of the known finding (an rpm database in SQLite format that is not CALLED rpmdb.sqlite is opened read-write where
+    it lies): real-directory route, the tree's <dir>/Packages has one of the SQLite-format contents (variants 7, 8), a -journal file lies
+    beside it, and every difference is on exactly these two paths (database rolled back / rewritten, journal removed or emptied);
+    TMPDIR, the working directory and the files behind links are untouched"""
     t = case.split(' ')
-    if t[1] != 'r' or f.get('tmp') != '-' or f.get('cwd') != '-' or len(t[3]) != len(files):
+    if t[1] not in 'rwm' or f.get('tmp') != '-' or f.get('cwd') != '-' or f.get('out', '-') != '-' or len(t[3]) > len(files):
         return False
+    var = dict((files[k], c) for k, c in enumerate(t[3]))
     items = _dec_items(f.get('diff'))
     if not items:
         return False
     for it in items:
-        m = re.match(r'^(.*)/rpmdb\.sqlite(-wal|-shm|-journal)?$', it.split(' ')[1])
-        if not m or not any(files[k] == m.group(1) + '/rpmdb.sqlite' and c != '5' for k, c in enumerate(t[3])):
+        m = re.match(r'^(changed|removed) (.*)/Packages(-journal)? ?', it)
+        if not m or (m.group(1) == 'removed' and not m.group(3)):
+            return False
+        d = m.group(2)
+        if var.get(d + '/Packages') not in ('7', '8') or var.get(d + '/Packages-journal', '5') == '5':
             return False
     return True
 
@@ -356,6 +364,9 @@ def scan_stream(ctx, replay=None):
             '; '.join(_dec_items(f['diff'])) or '-', '; '.join(_dec_items(f['tmp'])) or '-', '; '.join(_dec_items(f['cwd'])) or '-', '; '.join(_dec_items(f.get('out'))) or '-')
         text = 'a scan changed the file system (%s). %s' % (what, _tree_text(case, files, defaults))
         if _getrealpath_class(case, f, files) and ctx.known_finding(LEAK_KEY, text):
+            leaks += 1
+            continue
+        if _rpm_inplace_class(case, f, files) and ctx.known_finding(INPLACE_KEY, text):
             leaks += 1
             continue
         if reported < 3:
